@@ -84,7 +84,13 @@ func HarnessLogout() {
 	}
 	st.sp = sp
 	vrtNominalSigAlg = true
+	// history: nothing | the logout of another service provider (which has a SingleLogoutService)
+	hist := 0
+	if (vrtProp("C02") || vrtProp("C13") || vrtProp("C15")) && vrtBool("hist.logout") {
+		hist = 3
+	}
 	p := vrtNewProviderWith(st, false)
+	vrtEarlierRequest(p, st, hist)
 
 	method := vrtStr("req.method")
 	rb := vrtNewRequest("req", method, vrtSLOPath)
